@@ -11,7 +11,7 @@ import numpy as np
 from .. import common as C
 
 PROP = "C16"
-GEN_REGIONS: List[str] = ["Dsp", "TimeShift"]
+GEN_REGIONS: List[str] = ["Dsp", "TimeShift", "DfWrappers"]
 THEOREMS = {
     "SpecKitV.Lemmas.Taps": ["tap_eq_lagrange", "taps_sum_one", "taps_reproduce_poly", "tap_at_zero"],
     # the taps as translated from dsp.lagrange_taps on every run ARE the model taps, hence the Lagrange weights
@@ -25,6 +25,12 @@ THEOREMS = {
                                     "gen_const_interior", "gen_const_is_interpolant", "gen_const_reproduces_poly", "gen_const_integer",
                                     "gen_zero_identity", "gen_const_constant", "gen_paths_agree_interior", "gen_var_is_interpolant",
                                     "gen_df_samples", "gen_df_order", "gen_df_numeric_kinds", "gen_df_column_noop", "gen_df_column_eq_model"],
+    # region DfWrappers (vk/regions/df_wrappers.py -> Gen/DfWrappers.lean): dsp.df_timeshift translated WHOLE (validation, zero-shift identity,
+    # df.copy(), column resolution, the column loop with pandas' update-or-append stores, truncate) on a value model of frames in a Python object
+    # store, proved equal to the hand model Model/DfWrappers.lean for every input, and the specification theorems about it
+    "SpecKitV.Props.DfWrappersGen": ["gen_df_timeshift_eq_model", "gen_df_timeshift_spec", "gen_df_timeshift_input_untouched", "gen_df_timeshift_zero",
+                                     "gen_df_timeshift_truncate_false_eq_true", "gen_df_timeshift_rejects_iff", "gen_df_timeshift_column_interpolant",
+                                     "gen_df_timeshift_defaults", "DfSpec.rows_trunc", "DfSpec.rows_empty", "DfAux.col?_setCol", "DfAux.names_setCol"],
 }
 CONTRACTS = [
     "np.pad(mode='edge') holds the end values; np.pad(default) pads zeros; np.correlate(a, v, 'valid')[n] = sum_k a[n+k] v[k]; "
@@ -51,6 +57,23 @@ CONTRACTS = [
     "np.arange(n)[i] = i; elementwise NumPy arithmetic on equal-length arrays is the scalar operation per index; a raised exception is `none`",
     "lagrange_taps(shift_fracs, halfp) applied to a vector is Gen.lagrange_taps (Gen/Dsp.lean, one shift) per element: the function is elementwise "
     "along the shift axis (established by the Dsp region's scalarisation, exercised by the `gentaps` / `gentshift` runs)",
+    # region DfWrappers (lean/SpecKitV/Np/DfWrappers.lean): pandas / Python operations as Lean DEFINITIONS on a value model of frames, executed
+    # against the real pandas on every run (driver ops gdfts / gdfdefaults)
+    "NpDf.Frame / Col / Heap: a DataFrame is an ordered list of columns (label, dtype.kind, one value per row; values of non-numeric columns are "
+    "opaque tokens) + row count + row index (opaque labels), held as a MUTABLE object of a Python object store; `x = df` aliases, NpDf.copy = df.copy() "
+    "allocates a new object with the same value; isinstance(df, pd.DataFrame) = NpDf.Heap.isFrame; frames with duplicate / non-string labels and "
+    "complex columns are outside the model",
+    "NpDf.Frame.empty = df.empty (no rows or no columns); Frame.names = df.columns.tolist(); Frame.hasCol = `c in df.columns`; NpDf.getitem = df[c] "
+    "(KeyError = none), .kind = df[c].dtype.kind, .vals = df[c].to_numpy() / .values; NpDf.kindIn k [chars] = `k in \"chars\"`",
+    "NpDf.setitem / Frame.setCol = `df[c] = ndarray`: pandas' order rule (an existing label keeps its position and takes the new values and dtype, a new "
+    "label is appended at the end), positional (no index alignment), ValueError unless len(values) == len(df); the stored dtype kind is 'f' "
+    "(NpDf.resultKind: timeshift's pass-through / early-return branches return the input's dtype instead — accepted by the differential run)",
+    "NpDf.iloc / Frame.rows = df.iloc[lo:hi]: a NEW frame object with the rows lo'..hi'-1 under Python's slice rule on len(df) (NpTS.sliceBound), every "
+    "column and the row index sliced alike, labels / dtypes / order kept",
+    "NpDf.PyFloat = a Python float argument that may be nan / +-inf (np.isfinite); NpDf.PyTrunc = the dynamic type of `truncate` (None | bool | int incl. "
+    "NumPy integers | other): isinstance(x, bool), isinstance(x, (int, np.integer)) (true for bools), int(x); int() of an infinite float (OverflowError) is not modelled",
+    "NpDf.forEach = a Python for-loop over a list whose body may update the object store or raise; `timeshift(col, seconds*fs)` inside df_timeshift is a CALL "
+    "of the translated Gen.timeshift (region TimeShift) with the default order read from timeshift's signature",
 ]
 ASSUMPTIONS = [
     "theorems are over the reals for the hand model Model.TimeShift (tap, shiftConst, shiftVar); the model is tied to dsp.py structurally: "
@@ -59,7 +82,9 @@ ASSUMPTIONS = [
     "the interpolation/polynomial claims are demanded only where the 2h-point stencil lies inside the record (as the property states); "
     "outside, only the integer-shift end-hold of the constant path is demanded; the zero-padded/clipped edge behaviour of the time-varying "
     "path is pinned down (translated code = Model.shiftVar at every sample, Props/TimeShiftGen) but no property claim is made about it",
-    "df_timeshift is covered by the oracle (real pandas), not by a Lean theorem; its `truncate` option is outside the property",
+    "df_timeshift is covered by the oracle (real pandas) AND, since region DfWrappers, translated whole and proved equal to the frame-level hand model "
+    "(Props/DfWrappersGen: per-column values, column order, untouched columns, input not modified, zero-shift identity, truncate incl. truncate=False, "
+    "exactly which inputs raise); the pandas operations enter as the stated contracts of Np/DfWrappers.lean",
     "|shift| is kept below 2^53 (np.floor(...).astype(int) is not meaningful beyond)",
 ]
 RULE = ("taps: every half-length h=1..56 (all odd orders <= 111) x fractional parts d (0, dyadic k/64, random, near 0/1); "
@@ -1706,5 +1731,10 @@ def correspondence(ctx) -> C.Part:
         gen_compare(P, drv, "gentshift var", 2 * h - 1, x, sv, imp, tol,
                     {"h": h, "N": N, "mode": mode, "case": {"kind": "var", "data": x.tolist(), "shifts": sv.tolist(), "h": h, "mode": mode}})
         P.hit(f"gen_var_mode_{mode}")
-    gen_extra(P, ctx, np.random.default_rng(int(rng.integers(0, 2 ** 62))))
+    crng = np.random.default_rng(int(rng.integers(0, 2 ** 62)))
+    gen_extra(P, ctx, crng)
+    # region DfWrappers: the WHOLE df_timeshift as translated vs the real one on generated pandas frames (child generator of the child: the
+    # streams above are unchanged)
+    from ..regions import df_wrappers as DFW
+    DFW.differential(P, ctx, np.random.default_rng(int(crng.integers(0, 2 ** 62))), "timeshift")
     return P
